@@ -275,6 +275,7 @@ package ice
 //@   site call closeConnAndLog#0 ghost pending := 0
 //@   site call NewCandidateHost#1 assert C18 an-active-tcp-host-candidate-on-the-dialling-address: arg0.TCPType == TCPTypeActive && arg0.Component == ComponentRTP
 //@   site call NewCandidateHost#1 assert C18 mdns-gather-mode-publishes-the-name-not-the-ip: a.mDNSMode == MulticastDNSModeQueryAndGather ==> arg0.Address == a.mDNSName && !arg0.IsLocationTracked
+//@   site call setIPAddr#1 assert C18 only-a-candidate-published-under-the-mdns-name-gets-its-address-set-separately: a.mDNSMode == MulticastDNSModeQueryAndGather && arg1 == localIPs[i].addr
 //@   ghostvar linkLocal bool = false
 //@   site call shouldFilterLocationTrackedIP#1 assert C18 judges-the-dialling-address: arg0 == localIPs[i].addr
 //@   site call shouldFilterLocationTrackedIP#1 ghost linkLocal := result
